@@ -185,3 +185,63 @@ fn c10_message_first_and_its_arguments_evaluated_once_iff_enabled() {
         assert!(evals.get() == 0 && s.n.load(AO::SeqCst) == 0 && s.events.load(AO::SeqCst) == 0, "C10.message.nothing_evaluated_when_disabled_by_any_stage");
     }
 }
+
+// every PREFIX form of event! (name: / target: / parent: in all 8 combinations - each is a separate hand-written arm of
+// the macro with its own copy of the guard) evaluates its field expression exactly once iff enabled, at every stage
+#[kani::proof]
+#[kani::unwind(8)]
+#[kani::stub(core::fmt::Formatter::pad, pad_stub)]
+#[kani::stub(tracing_core::dispatch::get_default, get_default_stub)]
+#[kani::stub(tracing_core::metadata::LevelFilter::current, current_stub)]
+#[kani::stub(tracing_core::callsite::register, register_stub)]
+fn c10_event_prefix_forms_evaluate_once_iff_enabled() {
+    let x: u64 = nd();
+    let s = new_st();
+    let (d, on) = stage(3, &s);
+    CUR_DISPATCH.store(&d as *const Dispatch as usize, AO::SeqCst);
+    let evals = Cell::new(0u32);
+    let form: u8 = nd(); kani::assume(form < 8);
+    match form {
+        0 => crate::event!(Level::INFO, alpha = { evals.set(evals.get() + 1); x }),
+        1 => crate::event!(target: "t", Level::INFO, alpha = { evals.set(evals.get() + 1); x }),
+        2 => crate::event!(name: "n", Level::INFO, alpha = { evals.set(evals.get() + 1); x }),
+        3 => crate::event!(parent: None, Level::INFO, alpha = { evals.set(evals.get() + 1); x }),
+        4 => crate::event!(name: "n", target: "t", Level::INFO, alpha = { evals.set(evals.get() + 1); x }),
+        5 => crate::event!(target: "t", parent: None, Level::INFO, alpha = { evals.set(evals.get() + 1); x }),
+        6 => crate::event!(name: "n", parent: None, Level::INFO, alpha = { evals.set(evals.get() + 1); x }),
+        _ => crate::event!(name: "n", target: "t", parent: None, Level::INFO, alpha = { evals.set(evals.get() + 1); x }),
+    }
+    kani::cover!(on && form == 4, "C10.reachable.name_target_enabled"); kani::cover!(!on && form == 7, "C10.reachable.all_prefixes_disabled");
+    if on {
+        assert!(evals.get() == 1 && s.events.load(AO::SeqCst) == 1 && s.n.load(AO::SeqCst) == 1 && saw(&s, 0, b'a', K_U64, x as usize), "C10.event.prefix_forms.evaluated_and_visited_exactly_once_when_enabled");
+    } else {
+        assert!(evals.get() == 0 && s.events.load(AO::SeqCst) == 0 && s.n.load(AO::SeqCst) == 0, "C10.event.prefix_forms.nothing_evaluated_when_disabled_by_any_stage");
+    }
+}
+// the same for span!
+#[kani::proof]
+#[kani::unwind(8)]
+#[kani::stub(core::fmt::Formatter::pad, pad_stub)]
+#[kani::stub(tracing_core::dispatch::get_default, get_default_stub)]
+#[kani::stub(tracing_core::metadata::LevelFilter::current, current_stub)]
+#[kani::stub(tracing_core::callsite::register, register_stub)]
+fn c10_span_prefix_forms_evaluate_once_iff_enabled() {
+    let x: u64 = nd();
+    let s = new_st();
+    let (d, on) = stage(3, &s);
+    CUR_DISPATCH.store(&d as *const Dispatch as usize, AO::SeqCst);
+    let evals = Cell::new(0u32);
+    let form: u8 = nd(); kani::assume(form < 4);
+    let sp = match form {
+        0 => crate::span!(Level::INFO, "s", alpha = { evals.set(evals.get() + 1); x }),
+        1 => crate::span!(target: "t", Level::INFO, "s", alpha = { evals.set(evals.get() + 1); x }),
+        2 => crate::span!(parent: None, Level::INFO, "s", alpha = { evals.set(evals.get() + 1); x }),
+        _ => crate::span!(target: "t", parent: None, Level::INFO, "s", alpha = { evals.set(evals.get() + 1); x }),
+    };
+    core::mem::forget(sp);
+    if on {
+        assert!(evals.get() == 1 && s.spans.load(AO::SeqCst) == 1 && s.n.load(AO::SeqCst) == 1 && saw(&s, 0, b'a', K_U64, x as usize), "C10.span.prefix_forms.evaluated_and_visited_exactly_once_when_enabled");
+    } else {
+        assert!(evals.get() == 0 && s.spans.load(AO::SeqCst) == 0 && s.n.load(AO::SeqCst) == 0, "C10.span.prefix_forms.nothing_evaluated_when_disabled_by_any_stage");
+    }
+}
